@@ -791,6 +791,73 @@ def s_history():
     return st.fixed_dictionaries({"tx": tx, "hts": hts, "ops": st.lists(op, min_size=2, max_size=10)})
 
 
+# =========================================================================================== sub-check: records re-resolved from a database
+
+_RESOLVE_SCRIPTS = ["51", "00", "52", "6a", "5187", "76a914" + "11" * 20 + "88ac", "0051", "5151"]
+
+
+def o_resolve(case):
+    """the recorded spent outputs of ONE long-lived Tx are tampered with, looked up again in a transaction database
+    (unspents_from_db), tampered with again ...: after every step each input's verdict is the one a fresh object gives
+    that was told the records as they now stand (after a look-up: the database's).  No signatures are involved: the
+    spent scripts are OP_1 / OP_0 / OP_RETURN / hash-locked ones, so the verdict is a function of the recorded script."""
+    from pycoin.symbols.btc import network as BTC
+    T = BTC.tx
+    sources = []
+    for k, outs in enumerate(case["sources"]):
+        src = T(1, [T.TxIn(bytes([k + 1]) * 32, k, b"\x51", 0xffffffff)],
+                [T.TxOut(1000 + v, bytes.fromhex(_RESOLVE_SCRIPTS[sc % len(_RESOLVE_SCRIPTS)])) for v, sc in outs], 0)
+        sources.append(src)
+    db = dict((src.hash(), src) for src in sources)
+    spend = []
+    for a, b in case["spend"]:
+        a %= len(sources)
+        b %= len(sources[a].txs_out)
+        if (a, b) not in spend:
+            spend.append((a, b))
+    true = [(sources[a].txs_out[b].coin_value, sources[a].txs_out[b].script) for a, b in spend]
+    tx = T(1, [T.TxIn(sources[a].hash(), b, b"", 0xffffffff) for a, b in spend], [T.TxOut(500, b"\x51")], 0)
+    tx.unspents_from_db(db)
+    recorded = list(true)
+    labels = set()
+    for step, op in enumerate(case["ops"]):
+        if op[0] == "tamper":
+            i = op[1] % len(spend)
+            v, sc = recorded[i]
+            if op[2] % 3 == 0:
+                new = (v + 1 + op[2], sc)
+            else:
+                new = (v, bytes.fromhex(_RESOLVE_SCRIPTS[(op[2] + _RESOLVE_SCRIPTS.index(sc.hex())) % len(_RESOLVE_SCRIPTS)]))
+            recorded[i] = new
+            # (replaced, not edited in place: after a look-up the recorded object IS the source transaction's own output)
+            tx.unspents[i] = T.TxOut(*new)
+            labels.add("tampered")
+        elif op[0] == "resolve":
+            tx.unspents_from_db(db)
+            if recorded != true:
+                labels.add("resolved-after-tamper")
+            recorded = list(true)
+        fresh = T.from_bin(tx.as_bin())
+        fresh.set_unspents([T.TxOut(v, sc) for v, sc in recorded])
+        got = [tx.is_solution_ok(i) for i in range(len(spend))]
+        want = [fresh.is_solution_ok(i) for i in range(len(spend))]
+        if got != want or tx.bad_solution_count() != fresh.bad_solution_count():
+            _bad("tamper:resolved-object-differs-from-fresh", "step %d of %s: the long-lived object reports %r (bad count %d), a fresh object told the "
+                 "records as they stand (%s) reports %r (%d)" % (step, case["ops"][:step + 1], got, tx.bad_solution_count(),
+                                                                  [(v, sc.hex()) for v, sc in recorded], want, fresh.bad_solution_count()))
+        if True in want and False in want:
+            labels.add("mixed-verdicts")
+    return sorted(labels)
+
+
+def s_resolve():
+    outs = st.lists(st.tuples(st.integers(0, 5), st.integers(0, 7)).map(list), min_size=1, max_size=3)
+    op = st.one_of(st.tuples(st.just("tamper"), st.integers(0, 5), st.integers(0, 11)).map(list), st.just(["resolve"]), st.just(["validate"]))
+    return st.fixed_dictionaries({"sources": st.lists(outs, min_size=1, max_size=3),
+                                  "spend": st.lists(st.tuples(st.integers(0, 2), st.integers(0, 2)).map(list), min_size=1, max_size=4),
+                                  "ops": st.lists(op, min_size=2, max_size=8)})
+
+
 SUBCHECKS = [
     SubCheck("tamper_catalogue", o_tamper, strategy=s_tamper, budget=(360, 10000), nontrivial=nt_tamper,
              rule="pycoin-signed transaction (1-4 inputs of the 8 kinds, multisig n <= 5, own hash type per input, 9 coins) x 8-24 generated single-field "
@@ -803,4 +870,11 @@ SUBCHECKS = [
              rule="history of 2-10 ops (mutate in place / revert last mutation / validate again) on the one Tx object that was signed: after every op "
                   "is_solution_ok(i) for all i and bad_solution_count() equal those of a fresh object (from_bin(as_bin(include_unspents=True)), or "
                   "from_bin + copied unspents when the unspents list is incomplete), the commitment table, and refvm"),
+    SubCheck("records_resolved_again", o_resolve, strategy=s_resolve, budget=(600, 20000),
+             nontrivial=lambda c, l: "resolved-after-tamper" in l,
+             rule="1-4 inputs spending outputs of 1-3 source transactions held in a database (spent scripts OP_1 / OP_0 / OP_RETURN / hash "
+                  "locks: verdicts need no signatures), 2-8 ops on one Tx object: tamper with a recorded spent output (amount or script, by "
+                  "replacing the TxOut), unspents_from_db again, validate; after every op is_solution_ok(i) and "
+                  "bad_solution_count() equal those of a fresh object told the records as they stand (the database's after a look-up); "
+                  "non-trivial = a look-up after a tamper"),
 ]
